@@ -330,3 +330,64 @@ def represent_scalar(x, rep):
             raise ValueError("not a whole number")
         return np.float32(x) if rep == "npfloat32" else np.int64(int(x))
     raise ValueError(rep)
+
+
+# ---- trixel geometry (input selection for targeted probes only; validated against lookup_id each run) ----------
+_V6 = [(0, 0, 1), (1, 0, 0), (0, 1, 0), (-1, 0, 0), (0, -1, 0), (0, 0, -1)]
+_ROOT = {8: (1, 5, 2), 9: (2, 5, 3), 10: (3, 5, 4), 11: (4, 5, 1), 12: (1, 0, 4), 13: (4, 0, 3), 14: (3, 0, 2), 15: (2, 0, 1)}
+
+
+def _unit(v):
+    return v / np.sqrt((v * v).sum())
+
+
+def trixel_corners(htmid, depth):
+    """the three corners (longdouble unit vectors, counter-clockwise) of a trixel, by the library's midpoint subdivision"""
+    htmid = int(htmid)
+    v0, v1, v2 = [np.array(_V6[i], dtype=_LD) for i in _ROOT[htmid >> (2 * depth)]]
+    for lev in range(depth - 1, -1, -1):
+        j = (htmid >> (2 * lev)) & 3
+        w0, w1, w2 = _unit(v1 + v2), _unit(v0 + v2), _unit(v1 + v0)
+        if j == 0:
+            v0, v1, v2 = v0, w2, w1
+        elif j == 1:
+            v0, v1, v2 = v1, w0, w2
+        elif j == 2:
+            v0, v1, v2 = v2, w1, w0
+        else:
+            v0, v1, v2 = w0, w1, w2
+    return v0, v1, v2
+
+
+def xyz_ld(ra, dec):
+    a, d = _LD(ra) * _D2R, _LD(dec) * _D2R
+    return np.array([np.cos(d) * np.cos(a), np.cos(d) * np.sin(a), np.sin(d)])
+
+
+def sep_ld(u, v):
+    """angle between two unit vectors in degrees (longdouble, accurate for tiny angles)"""
+    c = cross3(u, v)
+    return np.arctan2(np.sqrt(c[0] * c[0] + c[1] * c[1] + c[2] * c[2]), u[0] * v[0] + u[1] * v[1] + u[2] * v[2]) * _R2D
+
+
+def position_angle(cen_ra, cen_dec, p):
+    """direction (degrees from north through east) in which the unit vector p is seen from the centre"""
+    a0, d0 = _LD(cen_ra) * _D2R, _LD(cen_dec) * _D2R
+    north = np.array([-np.sin(d0) * np.cos(a0), -np.sin(d0) * np.sin(a0), np.cos(d0)])
+    east = np.array([-np.sin(a0), np.cos(a0), _LD(0)])
+    return float((np.arctan2((p * east).sum(), (p * north).sum()) * _R2D) % 360)
+
+
+def cross3(a, b):
+    return np.array([a[1] * b[2] - a[2] * b[1], a[2] * b[0] - a[0] * b[2], a[0] * b[1] - a[1] * b[0]])
+
+
+def edge_normals(corners):
+    v0, v1, v2 = corners
+    return (cross3(v0, v1), cross3(v1, v2), cross3(v2, v0))
+
+
+def edge_margins(p, corners, normals=None):
+    """(v_i x v_j).p for the three edges: the numbers SpatialIndex::isInside compares with -gEpsilon = -1e-15"""
+    nn = normals if normals is not None else edge_normals(corners)
+    return [float(n[0] * p[0] + n[1] * p[1] + n[2] * p[2]) for n in nn]
